@@ -2,8 +2,8 @@
     Proved here: the Bmad-X drift (all clauses), the zero-voltage transverse deflecting cavity, and the Bmad-X quadrupole
     (transverse block = linear map at delta = 0, exact flow incl. z and num_steps independence for eps := 0, determinant defect
     of the coded eps = 2^-52, on-axis particle = Bmad-X drift, offset round trip, R56), and the Bmad-X dipole (fringe kicks = edge
-    matrices of the linear map, body = exact motion in a uniform field, closed design orbit, equality of the two exit-position
-    branches; section at the end).
+    matrices of the linear map, body = exact motion in a uniform field = closed-form sector map, its Jacobian at the design orbit,
+    flow law in all six coordinates, closed design orbit, equality of the two exit-position branches; section at the end).
     Models: Bmadx/DriftX.v (sqrt_one, track_a_drift, Drift._track_bmadx), Bmadx/Tdc.v, Bmadx/Coords.v, Bmadx/QuadX.v
     (calculate_quadrupole_coefficients, low_energy_z_correction, Quadrupole._track_bmadx), Bmadx/BendX.v (Dipole._track_bmadx,
     _bmadx_fringe_linear, _bmadx_body, sinc, cosc); linear map: Optics/Maps.v. *)
@@ -11,7 +11,7 @@ From Coq Require Import Reals.
 From Coquelicot Require Import Coquelicot.
 From Cheetah Require Import Base.Mat Optics.Maps Bmadx.Coords Bmadx.DriftX Bmadx.DriftXProofs Bmadx.DriftXJac Bmadx.Tdc Bmadx.TdcProofs
   Bmadx.QuadX Bmadx.QuadXProofs Bmadx.QuadXFlow Bmadx.QuadXJac
-  Bmadx.BendX Bmadx.BendXProofs Bmadx.BendXGeom Bmadx.BendXOrbit Bmadx.BendXJac Bmadx.BendXRefuted.
+  Bmadx.BendX Bmadx.BendXProofs Bmadx.BendXGeom Bmadx.BendXOrbit Bmadx.BendXJac Bmadx.BendXJacLoc Bmadx.BendXFlow Bmadx.BendXRefuted.
 Open Scope R_scope.
 
 (** sqrt_one(x) = sqrt(1+x) - 1 *)
@@ -268,15 +268,10 @@ Theorem C07_bendx_body_is_sector_map : forall L ang, L <> 0 -> ang <> 0 -> foral
   bx (bendx_body L ang p0c m q) = sect_x (bb_g L ang) ang (bx q) (bpx q) (bpy q) (bpz q).
 Proof. exact body_is_sector_map. Qed.
 
-(** ... and the Jacobian of that map at the design orbit w.r.t. (x, px, pz) is
+(** ... the Jacobian of that closed-form map at the design orbit w.r.t. (x, px, pz) is
       [ cos th        sin th / g    (1 - cos th)/g ]
-      [ -g sin th     cos th        sin th         ]
-    the rows 0, 1 / columns 0, 1, 5 (times beta: d pz/d delta = 1/beta0) of the linear sector bend.
-    _partial: (i) the statement is about the closed form; that the coded body has these derivatives follows from
-    C07_bendx_body_is_sector_map on a neighbourhood of the design orbit, and the openness of [bb_defined] there is not proved in Coq;
-    (ii) the y- and z-rows (Lp as a function of py, pz) and the conversion delta <-> pz are not differentiated (autograd oracle);
-    (iii) Dipole.transfer_map evaluates base_rmatrix at k1 = 0 whose guard sets kx2 = hx^2 + 1e-12, see C07_sector_entries_vs_base *)
-Theorem C07_bendx_body_jacobian_at_0_partial : forall g th, g <> 0 ->
+      [ -g sin th     cos th        sin th         ] *)
+Theorem C07_bendx_sector_map_jacobian : forall g th, g <> 0 ->
   is_derive (fun t => sect_x g th t 0 0 0) 0 (cos th) /\
   is_derive (fun t => sect_x g th 0 t 0 0) 0 (sin th / g) /\
   is_derive (fun t => sect_x g th 0 0 0 t) 0 ((1 - cos th) / g) /\
@@ -285,12 +280,65 @@ Theorem C07_bendx_body_jacobian_at_0_partial : forall g th, g <> 0 ->
   is_derive (fun t => sect_px g th 0 0 0 t) 0 (sin th).
 Proof. exact sect_jacobian. Qed.
 
+(** ... and, the code being defined on a neighbourhood of the design orbit along each axis (proved: continuity of the radicands), these ARE
+    the partial derivatives of the CODED body (arcsin, both c1/c2 masks, arctan2 and all) at the design orbit, for every length <> 0 and
+    every angle that is not a multiple of pi: rows x', px' / columns x, px, pz of the linear sector bend (column pz times
+    d pz/d delta = 1/beta0 gives the dispersion entries dx/beta, sx hx/beta of base_untilted).
+    _partial w.r.t. the full 6x6: the rows y' (d y'/d py = Lp/px_norm = L) and z' (R51, R52, R56) and the conversion delta <-> pz are not
+    differentiated in Coq (autograd oracle on the implementation, 1e-9); py' = py and pz' = pz are C07_bendx_body_py_pz;
+    Dipole.transfer_map evaluates base_rmatrix at k1 = 0 whose guard sets kx2 = hx^2 + 1e-12, see C07_sector_entries_vs_base *)
+Theorem C07_bendx_body_jacobian_at_0_partial : forall L ang p0c m z, L <> 0 -> ang <> 0 -> sin ang <> 0 -> -1 < cos ang ->
+  is_derive (fun t => bx (bendx_body L ang p0c m (mkb t 0 0 0 z 0))) 0 (cos ang) /\
+  is_derive (fun t => bx (bendx_body L ang p0c m (mkb 0 t 0 0 z 0))) 0 (sin ang / bb_g L ang) /\
+  is_derive (fun t => bx (bendx_body L ang p0c m (mkb 0 0 0 0 z t))) 0 ((1 - cos ang) / bb_g L ang) /\
+  is_derive (fun t => bpx (bendx_body L ang p0c m (mkb t 0 0 0 z 0))) 0 (- bb_g L ang * sin ang) /\
+  is_derive (fun t => bpx (bendx_body L ang p0c m (mkb 0 t 0 0 z 0))) 0 (cos ang) /\
+  is_derive (fun t => bpx (bendx_body L ang p0c m (mkb 0 0 0 0 z t))) 0 (sin ang).
+Proof. exact body_jacobian_at_0. Qed.
+
 (** the entries of base_untilted at kx2 = hx^2 are those numbers (th = hx L); Dipole.transfer_map uses kx2 = hx^2 + 1e-12 *)
 Theorem C07_sector_entries_vs_base : forall hx L, 0 < hx ->
   Cf (hx²) L = cos (hx * L) /\ Sf (hx²) L = sin (hx * L) / hx /\
   hx / hx² * (1 - Cf (hx²) L) = (1 - cos (hx * L)) / hx /\ - hx² * Sf (hx²) L = - hx * sin (hx * L) /\
   kx2 0 hx = hx² + 1e-12.
 Proof. exact sector_entries_vs_base. Qed.
+
+(** (f) flow law.  In the variables (px, U), U = w - (1 + g x), the exact sector map is the rotation by the bend angle and
+    w' = sqrt(px_norm^2 - px'^2): two consecutive sector maps of the same curvature are the sector map of the total angle ... *)
+Theorem C07_bendx_sector_map_flow : forall g py pz, g <> 0 -> forall th1 th2 x px,
+  0 <= (1 + pz) ^ 2 - py ^ 2 - px ^ 2 -> 0 <= sect_D g th1 x px py pz ->
+  sect_px g th2 (sect_x g th1 x px py pz) (sect_px g th1 x px py pz) py pz = sect_px g (th1 + th2) x px py pz /\
+  sect_x g th2 (sect_x g th1 x px py pz) (sect_px g th1 x px py pz) py pz = sect_x g (th1 + th2) x px py pz.
+Proof. exact sect_flow. Qed.
+
+(** ... and so are two consecutive CODED bodies of equal curvature angle1/length1 = angle2/length2, in ALL six coordinates: body(L1, a1)
+    followed by body(L2, a2) is body(L1 + L2, a1 + a2), wherever the code is defined (first piece, second piece at the intermediate
+    particle, whole) and arctan2 does not wrap, i.e. the exit angle as computed, angle + phi1 - theta_p, lies in [-pi/2, pi/2]
+    (it does not for angle < -pi: finding F70) *)
+Theorem C07_bendx_body_flow : forall L1 a1 L2 a2 p0c m q,
+  L1 <> 0 -> a1 <> 0 -> L2 <> 0 -> a2 <> 0 -> L1 + L2 <> 0 -> a1 + a2 <> 0 ->
+  bb_g L2 a2 = bb_g L1 a1 -> bb_g (L1 + L2) (a1 + a2) = bb_g L1 a1 ->
+  bb_defined L1 a1 q -> bb_defined L2 a2 (bendx_body L1 a1 p0c m q) -> bb_defined (L1 + L2) (a1 + a2) q ->
+  bb_nowrap L1 a1 q -> bb_nowrap L2 a2 (bendx_body L1 a1 p0c m q) -> bb_nowrap (L1 + L2) (a1 + a2) q ->
+  bendx_body L2 a2 p0c m (bendx_body L1 a1 p0c m q) = bendx_body (L1 + L2) (a1 + a2) p0c m q.
+Proof. exact body_flow. Qed.
+
+(** x, px (and py, pz) alone need no condition on arctan2 *)
+Theorem C07_bendx_body_flow_x_px : forall L1 a1 L2 a2 p0c m q,
+  L1 <> 0 -> a1 <> 0 -> L2 <> 0 -> a2 <> 0 -> L1 + L2 <> 0 -> a1 + a2 <> 0 ->
+  bb_g L2 a2 = bb_g L1 a1 -> bb_g (L1 + L2) (a1 + a2) = bb_g L1 a1 ->
+  bb_defined L1 a1 q -> bb_defined L2 a2 (bendx_body L1 a1 p0c m q) -> bb_defined (L1 + L2) (a1 + a2) q ->
+  let q2 := bendx_body L2 a2 p0c m (bendx_body L1 a1 p0c m q) in let qw := bendx_body (L1 + L2) (a1 + a2) p0c m q in
+  bx q2 = bx qw /\ bpx q2 = bpx qw /\ bpy q2 = bpy qw /\ bpz q2 = bpz qw.
+Proof. exact body_flow_x_px. Qed.
+
+(** closed form of y' and z' (no wrap): the arc length is px_norm (angle + phi1 - phi1')/g with phi1' = arcsin(px'/px_norm) *)
+Theorem C07_bendx_body_y_z_closed_form : forall L ang p0c m q, L <> 0 -> ang <> 0 -> bb_defined L ang q -> bb_nowrap L ang q ->
+  let q' := bendx_body L ang p0c m q in
+  let turn := ang + bb_phi1 (bpx q) (bpy q) (bpz q) - bb_phi1 (bpx q') (bpy q) (bpz q) in
+  by_ q' = by_ q + bpy q * turn / bb_g L ang /\
+  bz q' = bz q + bb_beta (bpz q) p0c m * L / bb_beta0 p0c m - (1 + bpz q) * turn / bb_g L ang.
+Proof. exact body_yz_closed. Qed.
 
 (** torch.arctan2 as modelled returns the polar angle: cos = x/|.|, sin = y/|.| away from the origin *)
 Theorem C07_atan2_polar : forall y x, 0 < x ^ 2 + y ^ 2 ->
@@ -361,5 +409,10 @@ Print Assumptions C07_bendx_c1_eq_c2.
 Print Assumptions C07_bendx_c2_wrong_divisor_differs.
 Print Assumptions C07_bendx_chain_sound.
 Print Assumptions C07_bendx_body_is_sector_map.
+Print Assumptions C07_bendx_sector_map_jacobian.
 Print Assumptions C07_bendx_body_jacobian_at_0_partial.
+Print Assumptions C07_bendx_sector_map_flow.
+Print Assumptions C07_bendx_body_flow.
+Print Assumptions C07_bendx_body_flow_x_px.
+Print Assumptions C07_bendx_body_y_z_closed_form.
 Print Assumptions C07_sector_entries_vs_base.
